@@ -55,16 +55,16 @@ CLAIMS = {
  "C12": ("reverse = runes reversed for every string within the bounds (incl. multibyte and invalid UTF-8), substr/position/len/replace/upper/lower equal small references on ASCII input; LIKE is translated to exactly the specified regular language and ~ / ~* hand pattern and subject to the regexp library as given (also after the same pattern text went through LIKE). Partial: the regexp engine itself is outside.",
          "Bounds: strings <= 3 (quick) / 4 (thorough) bytes.", "§5 C12"),
  "C20": ("For N records with arbitrary symbolic times, symbolic max_diff and each catalogue resolution the real generator emits a watermark exactly on a new rounded maximum with value rounded - max_diff, "
-         "and passes exactly the records after the current watermark with EventTime := time field.",
+         "and passes exactly the records after the current watermark with EventTime := time field; watermarks of the source are not forwarded; a second run of the same node behaves like a first.",
          "Bounds: N = 1 (quick) / 2 (thorough) records, times in [1970, 2106), resolutions 1ns/1ms/1s/1min.", "§5 C20"),
  "C21": ("tumble: containment, window length, unchanged fields/watermarks for five window lengths over fully symbolic times (alignment decided for 250ms and 1s); range: each integer of [start,end) once ascending for symbolic start; "
-         "poll: every round retracts the previous snapshot, emits the current one, then one watermark, under an arbitrary non-decreasing clock.",
+         "poll: every round retracts the previous snapshot, emits the current one, then one watermark, under an arbitrary non-decreasing clock; the same range node run twice emits each run's own interval; tumble planned through its descriptor uses the designated time column.",
          "Bounds: see evidence; alignment for 1ms/1min/1h windows is outside (solver unknown).", "§5 C21"),
  "C02": ("For every pair of input tables within the bounds (keys over all 2^64 Int values or NULL) and every receive order of the two inputs (each select with both inputs ready is a forked choice), "
          "the consolidated output of the real StreamJoin / OuterJoin (left, right, full) / LookupJoin node equals the relational join (equality never matches NULL, unmatched outer rows padded once; inputs of equal and of different width). "
          "Bounded model checking of the real node code including its goroutines, channels and btrees.",
          "Bounds: 0..1 (quick) / 0..2 (thorough) rows per side, 1-2 key columns; node level (planner key extraction belongs to C04).", "§5 C02"),
- "C11": ("For every AND/OR/NOT tree within the bounds and every assignment of TRUE/FALSE/NULL to its leaves the real evaluators return the Kleene value (solver-checked per path).",
+ "C11": ("For every AND/OR/NOT tree within the bounds and every assignment of TRUE/FALSE/NULL to its leaves the real evaluators return the Kleene value (solver-checked per path); every call the typechecker resolves to a Strict overload returns NULL when an argument is NULL, with all or only some argument types nullable; IS [NOT] NULL never returns NULL.",
          "Bounds: trees of depth <= 2 (quick) / 3 (thorough), 2..K operands per AND/OR.", "§5 C11"),
  "C19": ("For two watermarked inputs within the bounds and EVERY interleaving of their records, watermarks and end-of-stream (all schedules observable by the join's select loop are enumerated by forking), "
          "whenever the real StreamJoin / OuterJoin emits watermark W its consolidated output equals the join of the input records with event time <= W, emitted watermarks never decrease, and at end of stream "
@@ -75,7 +75,7 @@ CLAIMS = {
  "C13": ("For every overload of the arithmetic operators on Int/Float/Duration/Time/String, abs/ceil/floor/sqrt (exact IEEE via the FP theory; log/pow plumbing only), int()/float()/string(), time_from_unix/time_to_unix, IN/NOT IN, list indexing and COALESCE, the real closures return what small definitional references state, for all 64-bit argument values within the bounds (failed parses -> NULL, time_to_unix(time_from_unix(x)) = x, COALESCE = first non-NULL, re-laid-out by field name for objects of different layout).",
          "Bounds: strings <= 3 bytes, 7 object layouts for COALESCE, lists <= 2-3 elements, time_from_unix(Float) for |x| < 4; inputs that raise query errors (division by zero, negative counts/indices) assumed away; parse_time, now, string() rendering outside.", "§5 C13"),
  "C09": ("For every pair/triple of octosql values within the bounds (all 2^64 bit patterns per Int/Float/Duration leaf, every byte value per string byte, "
-         "containers to the stated depth) the solver shows Compare is reflexive, antisymmetric, transitive, Equal agrees with it and compare-equal values "
+         "containers to the stated depth) the solver shows Compare is reflexive, antisymmetric, transitive and returns exactly -1/0/1, Equal and the SQL operator = agree with it and compare-equal values "
          "hash equally (Value.Hash, the hash step used by containers and HashManyValues). Bounded model checking of the real functions; right level because the "
          "failing inputs (NaN, signed zero) are measure-zero for sampling but are returned as models by the solver.",
          "Bounds: strings <= 2 (quick) / 3 (thorough) bytes, container depth <= 1, <= 1-2 elements; times within 1678..2262.", "§5 C09"),
